@@ -225,7 +225,7 @@ func timeline(t *testing.T, r *rand.Rand, dir string, steps int) ([]Event, []str
 				}
 				e.log(Event{"ev": "writefail", "moved": moved})
 			case k < 75:
-				ms := []int64{1000, 10000, 30000, 59999, 60000, 60001, 120000, 300000, 600000}[r.Intn(9)]
+				ms := []int64{1000, 10000, 30000, 59999, 60000, 60001, 120000, 300000, 600000, 1000000}[r.Intn(10)]
 				target := e.t() + ms
 				time.Sleep(time.Duration(ms) * time.Millisecond)
 				synctest.Wait()
@@ -241,6 +241,16 @@ func timeline(t *testing.T, r *rand.Rand, dir string, steps int) ([]Event, []str
 			progress.Add(1)
 		}
 		synctest.Wait()
+		if !cancelled && r.Intn(2) == 0 {
+			// left alone with a healthy bucket for longer than any wait the specification accepts: whatever failed before has
+			// been retried by now and the newest backup is the current file (Settled)
+			e.setMode("ok")
+			synctest.Wait()
+			target := e.t() + 1020000
+			time.Sleep(1020000 * time.Millisecond)
+			synctest.Wait()
+			e.log(Event{"ev": "adv", "t": target})
+		}
 		e.scan("at the end of the timeline (after failed and successful uploads)")
 		e.log(Event{"ev": "end"})
 		e.mu.Lock()
